@@ -9,6 +9,7 @@ package verifrt
 
 import (
 	"bytes"
+	"encoding/json"
 	"fmt"
 	"runtime"
 	"sort"
@@ -71,6 +72,10 @@ type Sched struct {
 	MaxAdvance     time.Duration
 	advanced       time.Duration
 	abandoned      bool
+	detached       bool
+	// Quiescent is set when Run returned because every live managed goroutine is blocked for real (channel,
+	// timer, network) and none on a lock: not a deadlock, the environment has to move.
+	Quiescent bool
 }
 
 var (
@@ -124,6 +129,10 @@ func curSched() *schedHandle {
 // park records the point and waits to be released.
 func (h *schedHandle) park(site, kind string) {
 	h.s.mu.Lock()
+	if h.s.detached {
+		h.s.mu.Unlock()
+		return
+	}
 	h.g.state = gAtPoint
 	h.g.site, h.g.kind = site, kind
 	h.g.points++
@@ -145,6 +154,22 @@ func (h *schedHandle) exitIfAbandoned() {
 func (h *schedHandle) lock(site string, m any, read bool) {
 	h.park(site, "lock")
 	for {
+		h.s.mu.Lock()
+		det := h.s.detached
+		h.s.mu.Unlock()
+		if det {
+			// scheduler detached: behave like the pass-through shim
+			if read {
+				for !m.(rlocker).TryRLock() {
+					parkOn(m, site)
+				}
+			} else {
+				for !m.(locker).TryLock() {
+					parkOn(m, site)
+				}
+			}
+			return
+		}
 		ok := false
 		if read {
 			ok = m.(rlocker).TryRLock()
@@ -180,7 +205,11 @@ func (h *schedHandle) unlock(site string, m any, read bool) {
 			g.state = gAtPoint
 		}
 	}
+	det := h.s.detached
 	h.s.mu.Unlock()
+	if det {
+		wakeAll(m)
+	}
 }
 
 // Point is a scheduling point inserted by the rewriter (rule "points"); a no-op for unmanaged goroutines.
@@ -268,15 +297,21 @@ func (s *Sched) Run() {
 			}
 			s.mu.Lock()
 			var parts []string
+			lockBlocked := false
 			for _, g := range s.gs {
 				switch g.state {
 				case gLockBlocked:
+					lockBlocked = true
 					parts = append(parts, fmt.Sprintf("%s waits at %s for a lock held by %s", g.name, g.site, s.holders[g.waitLock]))
 				case gRunning:
 					parts = append(parts, fmt.Sprintf("%s is blocked after %s (%s)", g.name, g.site, g.kind))
 				}
 			}
-			s.Deadlock = strings.Join(parts, "; ")
+			if lockBlocked {
+				s.Deadlock = strings.Join(parts, "; ")
+			} else {
+				s.Quiescent = true
+			}
 			s.mu.Unlock()
 			return
 		}
@@ -329,6 +364,26 @@ func (s *Sched) AliveNames() []string {
 	return out
 }
 
+// Detach turns the scheduler off for the rest of the execution: parked goroutines continue and from now on
+// every shim is pass-through (used for the free-running closing phases after the explored part).
+func (s *Sched) Detach() {
+	s.mu.Lock()
+	s.detached = true
+	gs := append([]*managed(nil), s.gs...)
+	s.mu.Unlock()
+	for _, g := range gs {
+		s.mu.Lock()
+		parked := g.state == gAtPoint || g.state == gLockBlocked
+		if parked {
+			g.state = gRunning
+		}
+		s.mu.Unlock()
+		if parked {
+			g.resume <- struct{}{}
+		}
+	}
+}
+
 // Abandon releases every parked goroutine for good (the scheduler is deactivated first, so their shims
 // become pass-through) - used to let a bubble end after a deadlock was recorded.
 func (s *Sched) Abandon() {
@@ -356,6 +411,7 @@ type Execution struct {
 	Points     []PointRec
 	Trace      []string
 	Deadlock   string
+	Quiescent  bool
 	HorizonHit bool
 	Diverged   string
 	Violation  string
@@ -386,7 +442,7 @@ func RunSchedule(t *testing.T, prefix []int, maxSteps int, body func(s *Sched) (
 				synctest.Wait()
 			}()
 			sig, detail, outcome := body(s)
-			ex.Points, ex.Trace, ex.Deadlock, ex.HorizonHit, ex.Diverged = s.Points, s.Trace, s.Deadlock, s.HorizonHit, s.Diverged
+			ex.Points, ex.Trace, ex.Deadlock, ex.HorizonHit, ex.Diverged, ex.Quiescent = s.Points, s.Trace, s.Deadlock, s.HorizonHit, s.Diverged, s.Quiescent
 			ex.Signature, ex.Violation, ex.Outcome = sig, detail, outcome
 		})
 	}()
@@ -471,4 +527,181 @@ func Explore(t *testing.T, bound int, maxSteps int, deadline time.Time, body fun
 	explore(nil, bound)
 	st.BoundCompleted = bound
 	return st
+}
+
+// ---------------------------------------------------------------------------------------------
+// sharded exploration: the coordinator runs the default schedule, every first-level alternative becomes
+// the root of a subtree explored completely by a worker process.
+
+type ShardJob struct {
+	Scenario string `json:"scenario"`
+	Prefix   []int  `json:"prefix"`
+	Bound    int    `json:"bound"`
+	MaxSteps int    `json:"max_steps"`
+	BudgetS  int    `json:"budget_s"`
+}
+
+type ShardViolation struct {
+	Signature string   `json:"sig"`
+	Detail    string   `json:"detail"`
+	Choices   []int    `json:"choices"`
+	Trace     []string `json:"trace"`
+}
+
+type ShardResult struct {
+	Stats      ExploreStats     `json:"stats"`
+	Violations []ShardViolation `json:"viol"`
+}
+
+// exploreFrom is Explore restricted to the subtree below prefix.
+func exploreFrom(t *testing.T, prefix []int, bound int, maxSteps int, deadline time.Time, body func(s *Sched) (sig, detail, outcome string), onViolation func(ex Execution, choices []int)) ExploreStats {
+	st := ExploreStats{Outcomes: map[string]int64{}, Exhaustive: true}
+	var explore func(prefix []int)
+	explore = func(prefix []int) {
+		if time.Now().After(deadline) {
+			st.Exhaustive = false
+			return
+		}
+		ex := RunSchedule(t, prefix, maxSteps, body)
+		st.Executions++
+		if len(ex.Points) > st.MaxPoints {
+			st.MaxPoints = len(ex.Points)
+		}
+		if ex.Err != "" && !strings.Contains(ex.Err, "blocked goroutines remain") {
+			st.HarnessErrors = append(st.HarnessErrors, ex.Err)
+		}
+		if ex.Diverged != "" {
+			st.Diverged++
+			st.Exhaustive = false
+			return
+		}
+		if ex.HorizonHit {
+			st.HorizonHits++
+			st.Exhaustive = false
+		}
+		if ex.Deadlock != "" {
+			st.Deadlocks++
+		}
+		st.Outcomes[ex.Outcome]++
+		choices := make([]int, len(ex.Points))
+		for i, p := range ex.Points {
+			choices[i] = p.Chosen
+		}
+		if ex.Signature != "" {
+			onViolation(ex, choices)
+		}
+		used := 0
+		for i := 0; i < len(ex.Points); i++ {
+			p := ex.Points[i]
+			if i >= len(prefix) {
+				cost := used
+				if p.RunningStillEnabled {
+					cost++
+				}
+				if cost <= bound {
+					for alt := 1; alt < len(p.Enabled); alt++ {
+						explore(append(append([]int(nil), choices[:i]...), alt))
+					}
+				}
+			}
+			if p.RunningStillEnabled && p.Chosen != 0 {
+				used++
+			}
+		}
+	}
+	explore(prefix)
+	st.BoundCompleted = bound
+	return st
+}
+
+// ServeShards is the worker side of ExploreSharded.
+func ServeShards(t *testing.T, scenarios map[string]func(s *Sched) (string, string, string)) {
+	ServeWorker(func(js string) string {
+		var job ShardJob
+		if err := json.Unmarshal([]byte(js), &job); err != nil {
+			return `{"stats":{"HarnessErrors":["bad job"]}}`
+		}
+		body := scenarios[job.Scenario]
+		var out ShardResult
+		perSig := map[string]int{}
+		out.Stats = exploreFrom(t, job.Prefix, job.Bound, job.MaxSteps, time.Now().Add(time.Duration(job.BudgetS)*time.Second), body, func(ex Execution, choices []int) {
+			perSig[ex.Signature]++
+			if perSig[ex.Signature] > 2 {
+				return
+			}
+			again := RunSchedule(t, choices, job.MaxSteps, body)
+			if again.Signature != ex.Signature {
+				return // not reproducible: never reported
+			}
+			out.Violations = append(out.Violations, ShardViolation{ex.Signature, ex.Violation, choices, ex.Trace})
+		})
+		b, _ := json.Marshal(out)
+		return string(b)
+	})
+}
+
+// ExploreSharded explores one scenario with the subtrees below the default schedule's alternatives spread
+// over the worker pool. Violations are returned (at most a few per signature per shard).
+func ExploreSharded(t *testing.T, pool *Pool, scenario string, bound, maxSteps int, deadline time.Time, body func(s *Sched) (string, string, string)) (ExploreStats, []ShardViolation) {
+	total := ExploreStats{Outcomes: map[string]int64{}, Exhaustive: true, BoundCompleted: bound}
+	var viol []ShardViolation
+	ex := RunSchedule(t, nil, maxSteps, body)
+	total.Executions++
+	total.MaxPoints = len(ex.Points)
+	total.Outcomes[ex.Outcome]++
+	if ex.Deadlock != "" {
+		total.Deadlocks++
+	}
+	choices := make([]int, len(ex.Points))
+	for i, p := range ex.Points {
+		choices[i] = p.Chosen
+	}
+	if ex.Signature != "" {
+		viol = append(viol, ShardViolation{ex.Signature, ex.Violation, choices, ex.Trace})
+	}
+	var jobs []string
+	budget := int(time.Until(deadline).Seconds())
+	if budget < 5 {
+		budget = 5
+	}
+	for i, p := range ex.Points {
+		cost := 0
+		if p.RunningStillEnabled {
+			cost = 1
+		}
+		if cost > bound {
+			continue
+		}
+		for alt := 1; alt < len(p.Enabled); alt++ {
+			b, _ := json.Marshal(ShardJob{Scenario: scenario, Prefix: append(append([]int(nil), choices[:i]...), alt), Bound: bound, MaxSteps: maxSteps, BudgetS: budget})
+			jobs = append(jobs, string(b))
+		}
+	}
+	for _, r := range pool.Map(jobs, nil) {
+		if r.Crashed || r.TimedOut {
+			total.HarnessErrors = append(total.HarnessErrors, fmt.Sprintf("shard worker crashed=%v timedOut=%v: %.300s", r.Crashed, r.TimedOut, r.Stderr))
+			total.Exhaustive = false
+			continue
+		}
+		var sr ShardResult
+		if err := json.Unmarshal([]byte(r.Out), &sr); err != nil {
+			total.HarnessErrors = append(total.HarnessErrors, "bad shard output")
+			total.Exhaustive = false
+			continue
+		}
+		total.Executions += sr.Stats.Executions
+		total.Deadlocks += sr.Stats.Deadlocks
+		total.HorizonHits += sr.Stats.HorizonHits
+		total.Diverged += sr.Stats.Diverged
+		if sr.Stats.MaxPoints > total.MaxPoints {
+			total.MaxPoints = sr.Stats.MaxPoints
+		}
+		total.Exhaustive = total.Exhaustive && sr.Stats.Exhaustive
+		for o, c := range sr.Stats.Outcomes {
+			total.Outcomes[o] += c
+		}
+		total.HarnessErrors = append(total.HarnessErrors, sr.Stats.HarnessErrors...)
+		viol = append(viol, sr.Violations...)
+	}
+	return total, viol
 }
